@@ -44,6 +44,10 @@ pub enum Op {
     Unsubscribe(C, u64),
     SubscribeLs(C, u64, Option<String>),
     UnsubscribeLs(C, u64),
+    /// the client side of a subscription goes away without an unsubscribe (its receiver is dropped):
+    /// the server notices at its next attempt to send and cleans up lazily
+    DropReceiver(C, u64),
+    DropLsReceiver(C, u64),
     Lock(C, String),
     AcquireLock(C, String),
     ReleaseLock(C, String),
@@ -67,6 +71,8 @@ impl Op {
             Op::Unsubscribe(..) => "unsubscribe",
             Op::SubscribeLs(..) => "subscribeLs",
             Op::UnsubscribeLs(..) => "unsubscribeLs",
+            Op::DropReceiver(..) => "dropReceiver",
+            Op::DropLsReceiver(..) => "dropLsReceiver",
             Op::Lock(..) => "lock",
             Op::AcquireLock(..) => "acquireLock",
             Op::ReleaseLock(..) => "releaseLock",
